@@ -62,6 +62,16 @@ def built_by_cols_loop(body, var):
     return False
 
 
+def rule_no_static(cx, rid, em):
+    """helper templates keep no state of their own: a static local is shared by every display (and every call)"""
+    fns, names = helper_functions(em)
+    r = cx.rule(rid, "the LCD helper templates declare no static locals: what a helper draws depends only on its arguments and the per-display state object, never on an earlier call for another display (a cached blank line sized for a 20-column display would be printed on a 16-column one)", floor=8)
+    for n, f in fns.items():
+        st = [s_ for s_ in all_stmts(f["body"]) if s_["k"] == "decl" and s_.get("static")]
+        r.check(not st, f"{n}/no-static-local[{','.join(s_['name'] for s_ in st)}]", (em.rel, em.const("LCD_HELPER_SNIPPET").lineno), f"{n} keeps `static {st[0]['type']} {st[0]['name']}`" if st else "", sample=n)
+    return r
+
+
 def rule_dev_trunc(cx, rid, em, only=None):
     """every lcd.print in the helper templates is bounded by the display width; cursor rows are the row argument"""
     r = cx.rule(rid, "in every LCD helper, each print of a String is dominated by a truncation of that string to the remaining width (cols / available), each print of a single character sits in a loop bounded by cols, and every setCursor targets the row it was given with a non-negative column", floor=25)
@@ -238,6 +248,7 @@ def run(cx):
 
     # ---- C17-DEV-TRUNC -----------------------------------------------------------------------
     fns = rule_dev_trunc(cx, "C17-DEV-TRUNC", em)
+    rule_no_static(cx, "C17-STATELESS", em)
     r = cx.rule("C17-DEV-CLEAR", "write_aligned clears the row through __redu_lcd_clear_row(lcd, cols, row) exactly when clear_row is set, before printing; clear_row itself prints `cols` blanks from column 0", floor=3)
     wa = fns.get("__redu_lcd_write_aligned")
     if wa is None:
@@ -353,8 +364,68 @@ def run(cx):
         r.check((w.lo > 0 or (w.lo == 0 and w.lo_s)) and ("cols" in st.hi.get("width", ())), "progress/width-clamped-1..cols", (em.rel, em.const("LCD_HELPER_SNIPPET").lineno), f"width in {w}, <= {sorted(st.hi.get('width', ()))}")
         r.check(mx.lo > 0 or (mx.lo == 0 and mx.lo_s), "progress/max>=1", (em.rel, em.const("LCD_HELPER_SNIPPET").lineno), f"max_value in {mx}")
     hp = hm.func("LCD.progress")
-    ht = norm(hp)
-    r.check("total_width = self.cols if width is None else max(1, min(self.cols, int(width)))" in ht and "ratio = 0 if max_value <= 0 else max(0.0, min(1.0, float(value) / float(max_value)))" in ht and "filled = int(round(ratio * total_width))" in ht, "LCD.progress/host-clamps-and-round", (hm, hp), "host progress computation changed")
+    hloc = Locals(hp)
+    want_defs = {
+        "total_width": "self.cols if width is None else max(1, min(self.cols, int(width)))",
+        "ratio": "0 if max_value <= 0 else max(0.0, min(1.0, float(value) / float(max_value)))",
+        "filled": "int(round(ratio * total_width))",
+        "empty": "max(0, total_width - filled)",
+        "bar": "glyph * filled + ' ' * empty",
+    }
+    for v_, want_ in want_defs.items():
+        defs_ = [norm(d) for d in hloc.defs.get(v_, []) if isinstance(d, ast.expr)]
+        # exactly one definition: a second assignment (a width shrunk to make room for the label ...) changes the bar the
+        # firmware still draws against the requested width
+        r.check(defs_ == [want_], f"LCD.progress/host[{v_}]", (hm, hp), f"host progress computes {v_} as {defs_}; the firmware's bar is fill=value*width/max over the requested width clamped to 1..cols (expected the single definition `{want_}`)")
+
+    # host and firmware bar geometry on the complete small grid (the property's own tolerance): same bar width, fill equal
+    # whenever value*width is a multiple of max_value, never more than one cell apart, monotone in value
+    from .. import ckern
+    from .. import dl as dl_
+    body_ = pf["body"]
+    cut = next((i for i, s_ in enumerate(body_) if s_["k"] == "decl" and s_["name"] == "bar"), None)
+    if cut is None:
+        raise AnalysisError("__redu_lcd_progress: the bar is no longer built in a local named bar")
+    hexprs = {v_: hloc.defs[v_][0] for v_ in ("total_width", "ratio", "filled") if len(hloc.defs.get(v_, [])) == 1}
+    n_bad = 0
+    if len(hexprs) == 3:
+        hint = dl_.Interp(hm)
+        selfobj = type("S", (dl_.Synth,), {})()
+        for cols in (8, 16):
+            selfobj.cols = cols
+            for width in (None, -2, 0, 1, 5, cols, cols + 3):
+                for mx_ in (-1, 0, 1, 3, 10):
+                    prev_h = prev_d = None
+                    for val in (-4, 0, 1, 2, 5, 9, 10, 14):
+                        env = dl_.Env(None)
+                        for k_, x_ in (("self", selfobj), ("width", width), ("max_value", mx_), ("value", val)):
+                            dict.__setitem__(env, k_, x_)
+                        try:
+                            for v_ in ("total_width", "ratio", "filled"):
+                                hint.steps = 0
+                                dict.__setitem__(env, v_, hint.expr(hexprs[v_], env))
+                        except dl_.Unsupported as e:
+                            raise AnalysisError(f"host progress formula left the evaluable subset: {e}")
+                        hw, hfill = env["total_width"], env["filled"]
+                        k = ckern.Kern(env={"cols": cols, "row": 0, "value": val, "max_value": mx_, "width": (cols if width is None else width), "fill": 35},
+                                       types={"cols": "int", "row": "int", "value": "int", "max_value": "int", "width": "int"})
+                        try:
+                            k.block(body_[:cut])
+                        except ckern.KernUnsupported as e:
+                            raise AnalysisError(f"__redu_lcd_progress kernel left the evaluable subset: {e}")
+                        dw, dfill = k.env["width"], k.env["filled"]
+                        exact = (max(0, min(val, mx_)) * hw) % mx_ == 0 if mx_ > 0 else True
+                        good = dw == hw and abs(dfill - hfill) <= 1 and (not exact or dfill == hfill) and 0 <= dfill <= dw and (prev_d is None or dfill >= prev_d)
+                        prev_d = dfill
+                        if good:
+                            r.ok(None)
+                        else:
+                            n_bad += 1
+                            if n_bad <= 3:
+                                r.fail("progress/bar-geometry=host", (em.rel, em.const("LCD_HELPER_SNIPPET").lineno), f"progress(value={val}, max_value={mx_}, width={width}) on {cols} columns: firmware draws {dfill} of {dw} cells, host {hfill} of {hw}", detail={"cols": cols, "value": val, "max_value": mx_, "width": width})
+                            else:
+                                r.stat.obligations += 1
+                                r.stat.failed += 1
 
     # ---- binding of the LCD text arms (shared with C08) ---------------------------------------
     from . import c08
